@@ -80,6 +80,12 @@ def OPath.len (p : OPath α) : α :=
   let hlen := p.r * (p.path.len + twopi * p.k + p.phi)
   Num.sqrt (hlen * hlen + p.dz * p.dz)
 
+/-- `PathType::length()` with the fix of finding F147 (`std::abs(phi_)`: the horizontal length the curve really has);
+the check selects this one when the source under test has the fix -/
+def OPath.lenAbs (p : OPath α) : α :=
+  let hlen := p.r * (p.path.len + twopi * p.k + Num.abs p.phi)
+  Num.sqrt (hlen * hlen + p.dz * p.dz)
+
 /-- `PathType::category()` -/
 def OPath.category (p : OPath α) : String :=
   if ¬ (p.phi < 0) ∧ ¬ (0 < p.phi) then (if ¬ (p.k < 0) ∧ ¬ (0 < p.k) then "L" else "H")
